@@ -24,6 +24,11 @@ type Store struct {
 	Crashed          bool
 	Image            *memory.Database
 	Failed           bool
+	// single writes INTO a batch (Put / Delete / DeleteRange, also behind Update / Write) are counted as well; the
+	// FailWriteAt-th of them returns ErrInjected and stages nothing
+	Writes      int
+	FailWriteAt int
+	FailedWrite bool
 }
 
 func New(inner db.KeyValueStore) *Store { return &Store{KeyValueStore: inner} }
@@ -60,6 +65,38 @@ func (s *Store) DeleteRange(a, b []byte) error {
 type batch struct {
 	db.IndexedBatch
 	s *Store
+}
+
+func (b *batch) write() bool {
+	b.s.mu.Lock()
+	defer b.s.mu.Unlock()
+	b.s.Writes++
+	if b.s.FailWriteAt == b.s.Writes {
+		b.s.FailedWrite = true
+		return true
+	}
+	return false
+}
+
+func (b *batch) Put(k, v []byte) error {
+	if b.write() {
+		return ErrInjected
+	}
+	return b.IndexedBatch.Put(k, v)
+}
+
+func (b *batch) Delete(k []byte) error {
+	if b.write() {
+		return ErrInjected
+	}
+	return b.IndexedBatch.Delete(k)
+}
+
+func (b *batch) DeleteRange(a, z []byte) error {
+	if b.write() {
+		return ErrInjected
+	}
+	return b.IndexedBatch.DeleteRange(a, z)
 }
 
 func (b *batch) Write() error {
